@@ -12,6 +12,7 @@
 //   - one step of the sorted merge pops one source, returns its old head and
 //     reads that source exactly once; ties go to the lower source index,
 //   - the heap.Interface methods have their canonical meaning.
+//
 // They do not decide that the output is sorted or a permutation of the inputs:
 // that needs the container/heap algorithm and the inputs' own order.
 package main
@@ -218,12 +219,12 @@ func ruleRelinkBoth(c *Ctx, r *Rep, tier string) {
 // ---- sources of a record / id ----------------------------------------------------
 
 type mergerModel struct {
-	c                                  *Ctx
-	readF, pushF, popF, relinkF, catF  *ssa.Function
-	nextF, mReadF, newF                *ssa.Function
-	fID, fR, fHead, fErr               *types.Var
-	mReaders, mErr, mLess              *types.Var
-	w                                  *Walker
+	c                                 *Ctx
+	readF, pushF, popF, relinkF, catF *ssa.Function
+	nextF, mReadF, newF               *ssa.Function
+	fID, fR, fHead, fErr              *types.Var
+	mReaders, mErr, mLess             *types.Var
+	w                                 *Walker
 }
 
 func newMergerModel(c *Ctx) *mergerModel {
@@ -706,7 +707,9 @@ func ruleReadContract(c *Ctx, r *Rep, tier string) {
 			}
 			if !okE {
 				for _, b := range fn.Blocks {
-					ce, isC := classifyErrIf(b, func(v ssa.Value) bool { return strip(v) == strip(e) || (symKey(v) == symKey(e) && !strings.HasPrefix(symKey(e), "phi")) })
+					ce, isC := classifyErrIf(b, func(v ssa.Value) bool {
+						return strip(v) == strip(e) || (symKey(v) == symKey(e) && !strings.HasPrefix(symKey(e), "phi"))
+					})
 					if isC && ce.isNil && dominatedByEdge(fn, b, 1-ce.yes, ret.Block()) {
 						okE = true
 					}
@@ -1208,8 +1211,8 @@ func ruleTieID(c *Ctx, r *Rep, tier string) {
 				env := map[string]int64{
 					"$0.less($0.readers[$1].head,$0.readers[$2].head)": lij,
 					"$0.less($0.readers[$2].head,$0.readers[$1].head)": lji,
-					"$0.readers[$1].id":                             ids[0],
-					"$0.readers[$2].id":                             ids[1],
+					"$0.readers[$1].id": ids[0],
+					"$0.readers[$2].id": ids[1],
 				}
 				sr := symExec(fn, env)
 				n++
